@@ -565,9 +565,13 @@ def dict_contents_at(g, node, var, scenario, limit=4000, fi=None):
     bad = [False]
     amap = aliases_of(fi).map if fi is not None else {}
 
+    copies = {}          # path-local: local -> the name it was last copied from (`v = preexec_fn` in one branch, `v = wrapper` in the other)
+
     def rtext(e):
         # the value / condition with single-assignment locals that merely hold an access path (echo = self.echo) written out
         t = norm(e)
+        if isinstance(e, ast.Name) and e.id in copies:
+            return copies[e.id]
         if isinstance(e, ast.Name) and e.id in amap:
             return amap[e.id]
         return t
@@ -658,23 +662,38 @@ def dict_contents_at(g, node, var, scenario, limit=4000, fi=None):
         if r is None:
             return None
         return r if lab == 'true' else not r
-    stack = [(g.entry, ())]
+    stack = [(g.entry, (), ())]
     steps = 0
     while stack:
-        n, items = stack.pop()
+        n, items, cps = stack.pop()
         steps += 1
         if steps > limit:
             return None
-        key = (n.id, items)
+        key = (n.id, items, cps)
         if key in seen:
             continue
         seen.add(key)
         d = dict(items)
+        copies.clear()
+        copies.update(cps)
         if n is node:
             if d not in outs:
                 outs.append(d)
             continue
         d = apply(n, d)
+        # plain copies of names made on the way
+        if n.kind == 'stmt' and n.ast is not None:
+            a_ = n.ast
+            bound = set(x.id for x in ast.walk(a_) if isinstance(x, ast.Name) and isinstance(x.ctx, (ast.Store, ast.Del))) \
+                if not isinstance(a_, (ast.FunctionDef, ast.AsyncFunctionDef, ast.ClassDef)) else {a_.name}
+            for b_ in bound:
+                copies.pop(b_, None)
+                for k_ in [k_ for k_, v_ in copies.items() if v_ == b_]:
+                    copies.pop(k_)
+            if isinstance(a_, ast.Assign) and len(a_.targets) == 1 and isinstance(a_.targets[0], ast.Name) and isinstance(a_.value, ast.Name) \
+                    and a_.targets[0].id != var and a_.targets[0].id not in amap:
+                copies[a_.targets[0].id] = copies.get(a_.value.id, amap.get(a_.value.id, a_.value.id))
+        cps2 = tuple(sorted(copies.items()))
         it2 = tuple(sorted(d.items(), key=lambda kv: str(kv[0])))
         labs = None
         if n.kind == 'test' and n.ast is not None:
@@ -686,7 +705,7 @@ def dict_contents_at(g, node, var, scenario, limit=4000, fi=None):
                 continue
             if labs is not None and l_ in ('true', 'false') and l_ not in labs:
                 continue
-            stack.append((s_, it2))
+            stack.append((s_, it2, cps2))
     return None if bad[0] else outs
 
 
